@@ -378,6 +378,7 @@ def gen_case(ctx, i):
     extra, kw = {}, {}
     if r < 0.32:
         stratum, namer, dup = "unique+shared", Namer(rng, 0.35, 0.0, 0.0), 0.0
+        kw = {"p_param_names": 0.3}
     elif r < 0.50:
         stratum, namer, dup = "colliding", Namer(rng, 0.2, 0.25, 0.15), 0.0
     elif r < 0.62:
@@ -390,9 +391,14 @@ def gen_case(ctx, i):
         #              session: the constants change, a model is built from the same functions and generated again
         stratum, namer, dup = "module-constants", Namer(rng, 0.3, 0.0, 0.0), 0.0
         kw = {"p_modconst": 0.6}
-    elif r < 0.94:   # wider expression fragment (/ % ** unary minus, nested): oracle only, R vs S to 1e-9
+    elif r < 0.91:   # wider expression fragment (/ % ** unary minus, nested): oracle only, R vs S to 1e-9
         stratum, namer, dup = "wider-expressions", Namer(rng, 0.3, 0.0, 0.0), 0.0
         kw = {"rich": True, "small": (1, 2, 4), "p_time": 0.0, "n_pars": (1, 3)}
+        extra["oracle_only"] = True
+    elif r < 0.95:   # constants of the math module (math.pi, math.e) as factor / summand / divisor / modulus: the
+        #              generated source must import what its definitions refer to; oracle only, R vs S to 1e-9
+        stratum, namer, dup = "math-constants", Namer(rng, 0.3, 0.0, 0.0), 0.0
+        kw = {"rich": "math", "small": (1, 2, 4), "p_time": 0.0, "n_pars": (1, 3), "n_comps": (1, 4)}
         extra["oracle_only"] = True
     else:            # control flow in the functions, states / parameters negative, zero, on the thresholds, positive
         stratum, namer, dup = "conditionals", Namer(rng, 0.3, 0.0, 0.0), 0.0
@@ -612,6 +618,12 @@ def _rich(name, args, e):
 
 
 CORPUS += [
+    # constants of the math module: the generated source must import the module its definitions refer to (F-C11-7,
+    # repaired), and the modulus 2*pi keeps its parentheses
+    {"content": {"vars": [["x", {"v": "8"}]], "pars": [["p", {"v": "2"}]],
+                 "derived": [["d", _rich("f", ["x", "p"], ["+", ["%", ["a", 0], ["*", ["c", "2"], ["m", "pi"]]], ["a", 1]])]],
+                 "rxns": [["r", dict(_rich("g", ["d", "x"], ["*", ["*", ["a", 0], ["m", "e"]], ["a", 1]]), st=[["x", {"c": "-1"}]])]]},
+     "oracle_only": True, "queries": [["args", None, "0"], ["rhs", None, "0"]]},
     # class repaired by `fix: a function name generated ... is taken from then on`: initial assignments with `a` and `a_`
     # next to a derived function `init_a` (keys init_a_, init_a__), and two different coefficient functions both called
     # `f2` in one reaction (keys r_stoich_f2, r_stoich_f2_; the first with a repeated argument made generation raise)
